@@ -8,7 +8,7 @@ Line protocol for the C20 model.
   sync.connect <accepted|rejected|connRefused|peerClosed>  -> ok raised=<b> alive=<b>
   sync.connrace (loginReturns|install|loginAndInstall|sessionCloses …) -> ok installed=<b> closed=<b> event=<b> closeReturns=<b>
   witness C20                                         -> ok (name cfg labels)*  the runs the Witness theorems are about
-  sync.exec <execute|execute_sync> <alive at call 0|1> <argument ok 0|1> <returned|exception class> ((c d dl a d2)*) <done at handler 0|1>
+  sync.exec <execute|execute_sync> <alive at call 0|1> <argument ok 0|1> <returned|exception class> ((c d dl a d2)*) <done at handler 0|1> [<alive at execute_sync's second check 0|1>]
                                                       -> ok <returned|raised:<class>|looping> polls=<n>     `_wait_for` on the given passes; n = calls of future.result
 -/
 namespace NasdaqModel.Driver.SyncD
@@ -129,17 +129,22 @@ def resName : Option Res → String
 
 def handle (op : String) (args : List Sexp) : Option String :=
   match op, args with
-  | "sync.exec", [.atom api, a0, argOk, .atom fin, .list ps, dh] => do
+  | "sync.exec", .atom api :: a0 :: argOk :: .atom fin :: .list ps :: dh :: rest => do
     let a0 := (← asNat a0) != 0
+    -- optional: what execute_sync's SECOND `_must_be_active` (inside execute) finds; default: what the first one found
+    let a1 ← match rest with
+      | [] => some a0
+      | [x] => (asNat x).map (· != 0)
+      | _ => none
     let argOk := (← asNat argOk) != 0
     let fin ← finOf fin
     let ps ← ps.mapM passOf
     let dh := (← asNat dh) != 0
     let r ← match api with
       | "execute" => some (execute a0 argOk fin ps dh)
-      | "execute_sync" => some (executeSync a0 argOk a0 fin ps dh)
+      | "execute_sync" => some (executeSync a0 argOk a1 fin ps dh)
       | _ => none
-    let used := if a0 && argOk then pollsUsed fin ps else 0
+    let used := if a0 && argOk && (api == "execute" || a1) then pollsUsed fin ps else 0
     some s!"ok {resName r} polls={used}"
   | "sync.run", [c, ls] => do
     let cfg ← cfgOf c
